@@ -14,3 +14,5 @@ import AioMySensors.Model.Gateway
 import AioMySensors.Model.Mqtt
 import AioMySensors.Model.Stream
 import AioMySensors.Model.Flush
+import AioMySensors.Model.FileOps
+import AioMySensors.Model.Lifecycle
